@@ -44,8 +44,32 @@ def gen_copy_case(r):
     alive = [True] + [False] * (n - 1)
     held = {i: [] for i in range(n)}       # guards in flight per object (stack of w)
     main = []
+    owner = []                             # handle register -> (object, key) that owns its node, or None (stale)
+
+    def app(o, k):
+        owner.append((o, k))
+        main.append(['append', str(o), str(k), str(r.range(1, 9))])
+
+    def retarget(f):
+        for h in range(len(owner)):
+            if owner[h] is not None:
+                owner[h] = f(owner[h])
+
+    def look(o):
+        # what the handles say about object o after a structural operation (ownsHandle is only there for kind eq;
+        # removeListener only with a handle the object owns: a foreign handle is outside the contract)
+        mine = [h for h in range(len(owner)) if owner[h] is not None and owner[h][0] == o]
+        if kind == 'eq' and owner:
+            for h in ([r.pick(mine)] if mine else []) + [r.below(len(owner))]:
+                k = owner[h][1] if owner[h] is not None and r.chance(80) else r.below(nk)
+                main.append(['owns', str(o), str(k), str(h)])
+        if mine and r.chance(50):
+            h = r.pick(mine)
+            main.append(['remove', str(o), str(owner[h][1]), str(h)])
+            owner[h] = None
+
     for _ in range(r.range(2, 6)):
-        main.append(['append', '0', str(r.below(nk)), str(r.range(1, 9))])
+        app(0, r.below(nk))
     if kind == 'eq':
         for _ in range(r.below(3)):
             main.append(['addfilter', '0', str(r.range(1, 9)), str(1 if r.chance(70) else 0)])
@@ -53,7 +77,7 @@ def gen_copy_case(r):
         live = [i for i in range(n) if alive[i]]
         dead = [i for i in range(n) if not alive[i]]
         opts = [('append', 10), ('enqueue', 14), ('process', 8), ('dispatch', 10), ('emptyq', 12), ('canprocess', 10),
-                ('copyassign', 5), ('moveassign', 5), ('swap', 5)]
+                ('copyassign', 6), ('moveassign', 5), ('swap', 5), ('look', 8)]
         if kind == 'eq':
             opts.append(('addfilter', 4))
         if dead:
@@ -77,7 +101,9 @@ def gen_copy_case(r):
             main.append(['guardend', str(o), str(held[o].pop())])
             continue
         if op == 'append':
-            main.append(['append', str(o), str(r.below(nk)), str(r.range(1, 9))])
+            app(o, r.below(nk))
+        elif op == 'look':
+            look(o)
         elif op == 'addfilter':
             main.append(['addfilter', str(o), str(r.range(1, 9)), str(1 if r.chance(70) else 0)])
         elif op == 'enqueue':
@@ -87,18 +113,29 @@ def gen_copy_case(r):
         elif op in ('process', 'emptyq', 'canprocess'):
             main.append([op, str(o)])
         elif op in ('copyassign', 'moveassign', 'swap'):
-            d = r.pick(live)
+            d = o if r.chance(30) else r.pick(live)
             probe = op == 'copyassign' and d != o and r.chance(50)
             if probe:
                 # touch every key of the source first (a dispatch creates the per-key / per-prototype list even
                 # when nobody listens), then change one side after the copy and look at both
                 main += [['dispatch', str(o), str(k), str(r.range(1, 99))] for k in range(nk)]
             main.append([op, str(o), str(d)])
+            if d != o:
+                if op == 'copyassign':
+                    retarget(lambda ok: None if ok[0] == d else ok)
+                elif op == 'moveassign':
+                    retarget(lambda ok: None if ok[0] == d else ((d, ok[1]) if ok[0] == o else ok))
+                else:
+                    retarget(lambda ok: (d, ok[1]) if ok[0] == o else ((o, ok[1]) if ok[0] == d else ok))
             if probe:
                 k = r.below(nk)
                 side, other = (o, d) if r.chance(50) else (d, o)
-                main += [['append', str(side), str(k), str(r.range(1, 9))],
-                         ['dispatch', str(other), str(k), str(r.range(1, 99))], ['dispatch', str(side), str(k), str(r.range(1, 99))]]
+                app(side, k)
+                main += [['dispatch', str(other), str(k), str(r.range(1, 99))], ['dispatch', str(side), str(k), str(r.range(1, 99))]]
+            if r.chance(60):
+                look(o)
+            if d != o and r.chance(40):
+                look(d)
         elif op in ('copyctor', 'movector'):
             d = r.pick(dead)
             alive[d] = True
@@ -106,11 +143,17 @@ def gen_copy_case(r):
             if probe:
                 main += [['dispatch', str(o), str(k), str(r.range(1, 99))] for k in range(nk)]
             main.append([op, str(o), str(d)])
+            if op == 'movector':
+                retarget(lambda ok: (d, ok[1]) if ok[0] == o else ok)
             if probe:
                 k = r.below(nk)
                 side, other = (o, d) if r.chance(50) else (d, o)
-                main += [['append', str(side), str(k), str(r.range(1, 9))],
-                         ['dispatch', str(other), str(k), str(r.range(1, 99))], ['dispatch', str(side), str(k), str(r.range(1, 99))]]
+                app(side, k)
+                main += [['dispatch', str(other), str(k), str(r.range(1, 99))], ['dispatch', str(side), str(k), str(r.range(1, 99))]]
+            if r.chance(50):
+                look(d)
+            if r.chance(30):
+                look(o)
             # what a fresh object must do
             main += [['emptyq', str(d)], ['enqueue', str(d), str(r.below(nk)), str(r.range(1, 99))], ['canprocess', str(d)]]
         elif op == 'new':
@@ -120,6 +163,7 @@ def gen_copy_case(r):
         elif op == 'destroy':
             alive[o] = False
             main.append(['destroy', str(o)])
+            retarget(lambda ok: None if ok[0] == o else ok)
     for i in range(n):
         while held[i]:
             main.append(['guardend', str(i), str(held[i].pop())])
@@ -206,7 +250,14 @@ def run_copy(ctx, proof_ok):
     if usable and len(ctx.samples) < 2:
         i = usable[min(ncorpus, len(usable) - 1)]
         ctx.samples.append({'case': texts[i].strip().split('\n'), 'spec_trace': oracle[i][:30]})
-    return {'copy_cases': len(cases), 'copy_compared': compared, 'copy_disagreements': bad, 'copy_distinct_nontrivial': len(distinct),
+    def has(case, f):
+        return any(f(c) for c in case['main'])
+    dist = {'with_ownsHandle': sum(1 for c in cases if has(c, lambda x: x[0] == 'owns')),
+            'with_removeListener_by_handle': sum(1 for c in cases if has(c, lambda x: x[0] == 'remove')),
+            'with_self_copy_assignment': sum(1 for c in cases if has(c, lambda x: x[0] == 'copyassign' and x[1] == x[2])),
+            'with_self_move_assignment_or_self_swap': sum(1 for c in cases if has(c, lambda x: x[0] in ('moveassign', 'swap') and x[1] == x[2])),
+            'kind_heq': sum(1 for c in cases if c['kind'] == 'heq')}
+    return {'copy_input_distribution': dist, 'copy_cases': len(cases), 'copy_compared': compared, 'copy_disagreements': bad, 'copy_distinct_nontrivial': len(distinct),
             'copy_model_vs_spec_differences': model_vs_spec, 'copy_variants': sorted(bins)}
 
 
@@ -233,7 +284,9 @@ def run(ctx):
         'obligations': proof['obligations'], 'discharged': proof['discharged'],
         'checker_cmd': 'make -C /verif/coq -f Makefile.coq Properties_C10.vo && coqc -Q . EV Properties_C10.v (Print Assumptions parsed)',
         'trusted_base': cc.TRUSTED + ['tie A: tools/leaves/ctors.py (mem-initialiser lists of the queue constructors)',
-                                      'harness/copymove.cpp: placement-new into pre-filled storage; ocaml/driver_copy.ml',
+                                      'harness/copymove.cpp: placement-new into pre-filled storage, handles kept per append; ocaml/driver_copy.ml',
+                                      'tie A: tools/leaves/ctors.py copy_assign_self_safe (shape of EventDispatcherBase / HeterEventDispatcherBase operator=(const&): member-wise assignment or self test = true, copy-and-swap without a self test = false, anything else refused) and queue_assign_forwards',
+                                      'modelled not verified: a standard container copy-assigned from itself keeps its elements (and their addresses)',
                                       'modelled not verified: std::map / unordered_map move leaves the source empty; std::swap by move construction + two move assignments'],
         'theorems': proof['names'], 'axioms_reported': proof['axioms'], 'closed_under_global_context': proof['closed'],
         'proof_errors': proof['errors'], 'generated_leaves': proof.get('leaves', {}),
